@@ -137,7 +137,8 @@ class Region:
 
 
 class Extractor:
-    def __init__(self, repo, contracts_dir, canary=False):
+    def __init__(self, repo, contracts_dir, canary=False, force_demote=None):
+        self.force_demote = force_demote or {}   # fn path -> reason (compile-like error found by the verifier in it)
         self.canary = canary     # vacuity probe: `assert(false)` at the start of every function under contract
         self.repo = repo
         self.cdir = contracts_dir
@@ -499,6 +500,31 @@ class Extractor:
                     self.emit("\n")
 
     def finish_fn(self, f):
+        """emit one item; when an anchor / rewrite pattern of a FUNCTION is lost (the function was edited), the function is
+        *demoted* for this run: signature + contract are kept, the body is dropped (D-body) and the contract is assumed, so
+        that the rest of the unit can still be verified. The demotion is recorded (meta: demoted) and the property that
+        owns the function is undecided on this tree."""
+        snap = (len(self.out), self.line, len(self.fnmap), len(self.insmap), len(self.log), self.regions_checked)
+        if f["kind"] == "fn" and not f.get("assume") and f["item"].body_open >= 0 and f["path"] in self.force_demote:
+            f2 = dict(f)
+            f2["demoted"] = self.force_demote[f["path"]]
+            return self._finish_fn(f2)
+        try:
+            return self._finish_fn(dict(f))
+        except ExtractError as e:
+            if e.reason != "lost-anchor" or f["kind"] != "fn" or f.get("assume") or f["item"].body_open < 0:
+                raise
+            del self.out[snap[0]:]
+            self.line = snap[1]
+            del self.fnmap[snap[2]:]
+            del self.insmap[snap[3]:]
+            del self.log[snap[4]:]
+            self.regions_checked = snap[5]
+            f2 = dict(f)
+            f2["demoted"] = str(e)
+            return self._finish_fn(f2)
+
+    def _finish_fn(self, f):
         sf = f["sf"]
         toks, brk = sf.toks, sf.brk
         it = f["item"]
@@ -516,7 +542,9 @@ class Extractor:
         for o in f.get("opts", []):
             if o.startswith("keepderive="):
                 keepderive = tuple(o[len("keepderive="):].split(","))
-        opaque = f.get("assume") == "opaque" and f["kind"] == "fn" and it.body_open >= 0
+        # bodies of functions that are not verified in this unit (opaque / assumed here / demoted) are dropped (D-body): they
+        # play no role in what is verified or assumed, and they need not compile inside this unit
+        opaque = (f.get("assume") or f.get("demoted")) and f["kind"] == "fn" and it.body_open >= 0
         if opaque:
             # opaque function: only the signature is used in this unit; the body is not part of what is verified or
             # assumed here and is dropped (logged as D-body), so that it need not compile inside this unit
@@ -631,7 +659,11 @@ class Extractor:
                 reg.add(toks[arrow + 1].start, toks[arrow + 1].start, f"({f['ret']}: ", "ins", "ret-name")
                 reg.add(toks[e - 1].end, toks[e - 1].end, ")", "ins", "ret-name")
         loops = None
-        if f.get("assume") == "opaque" and f["kind"] == "fn":
+        if f.get("demoted"):
+            why = " ".join(f["demoted"].split())[:160].replace("*/", "* /")
+            f["ins"] = [("attr", None, 1, f"#[verifier::external_body] /* demoted on this tree: contract assumed, body not verified: {why} */\n", f["where"])] + \
+                       [x for x in f["ins"] if (x[0] == "attr" and "external_body" not in x[3]) or x[0] == "sig"]
+        elif f.get("assume") == "opaque" and f["kind"] == "fn":
             # only the signature is kept: callers learn nothing about the result and assume the call returns
             f["ins"] = [("attr", None, 1, "#[verifier::external_body] /* opaque here: no contract, totality assumed */\n", f["where"])] + \
                        [x for x in f["ins"] if (x[0] == "attr" and "external_body" not in x[3])]
@@ -639,7 +671,7 @@ class Extractor:
         elif f.get("assume") and not any(k == "attr" and "external_body" in t for (k, _, _, t, _) in f["ins"]):
             # contract assumed in this unit (proved in the unit that includes the same template without `assume`)
             f["ins"] = [("attr", None, 1, "#[verifier::external_body] /* assumed here, proved in another unit */\n", f["where"])] + \
-                       [x for x in f["ins"] if x[0] in ("attr", "sig", "atstart")]
+                       [x for x in f["ins"] if x[0] in ("attr", "sig")]
             f["assumed_elsewhere"] = True
         if self.canary and f["kind"] == "fn" and not f.get("assumed_elsewhere") and body_open >= 0 \
                 and not any(k == "attr" and "external_body" in t for (k, _, _, t, _) in f["ins"]):
@@ -781,7 +813,30 @@ class Extractor:
                     p = toks[k].end
                 reg.add(p, p, ("\n" if kind in ("after", "afterstmt", "beforestmt") else "") + txt, "ins", f"{kind} `{arg}`")
         start_line = self.line
-        rec = dict(path=f["path"], src_file=sf.rel, src_line=sf.line_of(toks[it.kw].start),
+        bare_closures = 0
+        if f["kind"] == "fn" and body_open >= 0 and not (f.get("assume") or f.get("demoted")):
+            # closures in the body that carry no ghost contract: the verifier cannot see through them
+            CL_PREV = {"(", ",", "=", "{", ";", "[", "=>", "&&", "||", "!", "move", "return", "else", "in", ":"}
+            k = body_open + 1
+            while k < it.last:
+                t = toks[k]
+                if t.kind == "punct" and t.text in ("|", "||") and toks[k - 1].text in CL_PREV:
+                    close = k
+                    if t.text == "|":
+                        close = k + 1
+                        while close < it.last and toks[close].text != "|":
+                            if toks[close].text in ("(", "[", "{"):
+                                close = brk[close]
+                            close += 1
+                    endpos = toks[close].end
+                    has_contract = any(e[0] == e[1] == endpos and e[3] == "ins" and ("ensures" in e[2] or "requires" in e[2]) for e in reg.edits) \
+                        or any(e[3] == "rw" and e[0] <= toks[k].start < e[1] for e in reg.edits)
+                    if not has_contract:
+                        bare_closures += 1
+                    k = close + 1
+                    continue
+                k += 1
+        rec = dict(path=f["path"], src_file=sf.rel, src_line=sf.line_of(toks[it.kw].start), bare_closures=bare_closures,
                    sha1=hashlib.sha1(sf.text[toks[it.first].start:toks[it.last].end].encode()).hexdigest()[:16],
                    kind=f["kind"], name=f.get("name", it.name))
         self.emit("    " if f.get("impl") else "")
@@ -791,11 +846,12 @@ class Extractor:
         rec["gen_line_end"] = self.line
         rec["external_body"] = any(k == "attr" and "external_body" in t for (k, _, _, t, _) in f["ins"])
         rec["assumed_elsewhere"] = bool(f.get("assumed_elsewhere"))
+        rec["demoted"] = f.get("demoted")
         self.fnmap.append(rec)
 
 
-def build_unit(repo, contracts_dir, unit, outdir, canary=False):
-    ex = Extractor(repo, contracts_dir, canary=canary)
+def build_unit(repo, contracts_dir, unit, outdir, canary=False, force_demote=None):
+    ex = Extractor(repo, contracts_dir, canary=canary, force_demote=force_demote)
     tpl = os.path.join(contracts_dir, "units", unit + ".vrs")
     ex.run_template(tpl)
     text = "".join(ex.out)
